@@ -1310,18 +1310,26 @@ impl Drop for Debugger {
 
 /// Read N bytes from `PID` process.
 pub fn read_memory_by_pid(pid: Pid, addr: usize, read_n: usize) -> Result<Vec<u8>, nix::Error> {
-    let mut read_reminder = read_n as isize;
     let mut result = Vec::with_capacity(read_n);
 
     let single_read_size = mem::size_of::<c_long>();
 
-    let mut addr = addr as *mut c_long;
-    while read_reminder > 0 {
-        let value = sys::ptrace::read(pid, addr as *mut c_void)?;
-        result.extend(value.to_ne_bytes().into_iter().take(read_reminder as usize));
+    // Read whole aligned words: an aligned word never straddles a page boundary, so a range
+    // that is entirely mapped can be read whatever follows it (an unaligned word at the end
+    // of a mapping reaches into the next, possibly unmapped, page and fails with EIO).
+    let end = addr.checked_add(read_n).ok_or(nix::Error::EFAULT)?;
+    let mut word_addr = addr - addr % single_read_size;
+    while read_n > 0 && word_addr < end {
+        let value = sys::ptrace::read(pid, word_addr as *mut c_void)?;
+        let bytes = value.to_ne_bytes();
+        let from = addr.max(word_addr) - word_addr;
+        let to = end.min(word_addr.saturating_add(single_read_size)) - word_addr;
+        result.extend_from_slice(&bytes[from..to]);
 
-        read_reminder -= single_read_size as isize;
-        addr = unsafe { addr.offset(1) };
+        word_addr = match word_addr.checked_add(single_read_size) {
+            Some(next) => next,
+            None => break,
+        };
     }
 
     debug_assert!(result.len() == read_n);
